@@ -375,6 +375,257 @@ theorem objClose_spec (L : Layout) (hwf : L.WF) (o : Obj) (r : Rd) (hinv : Inv L
       { r with pos := L.posOf (i + 1) } (by rw [hat.size, hat.index]; omega) ⟨hat.doc, hat.start, hat.size, by simp [hat.index], rfl⟩
     exact ⟨o', r', h1, h2.pos, by rw [h2.doc, hat.doc], h3⟩
 
+/-! ### array scopes: element requests and the destructor's skip loop
+
+`CMsgPackReadArrayScope` opened under a key of an object scope, read as far as the caller likes (a `std::tuple`
+shorter than the array under the Skip policy, a partly read nested array), and destroyed: the destructor skips the
+elements that were not read, so the object scope's cursor invariant holds again and whatever is requested
+afterwards is answered from the right place. -/
+
+/-- reading the complete value `v` with target kind `ty`, anywhere in a document -/
+theorem readValue_at {r : Rd} {pre v rest : List Tok} (h : At r pre v rest) (hv : WFv v) (ty : Ty) :
+    match valueAnswer r.mis ty v with
+    | .ok a => r.readValue ty = .ok (a, { r with pos := (pre ++ v).length })
+    | .error err => r.readValue ty = .error err := by
+  have hrest := rest_of_at h
+  unfold Rd.readValue valueAnswer
+  rw [hrest]
+  cases hvv : v with
+  | nil => exact absurd hvv hv.1
+  | cons t ts =>
+    simp only [List.cons_append]
+    cases hm : matchTy ty t with
+    | val s =>
+      simp only
+      have hts : ts = [] := wfv_scalar_head (hvv ▸ hv) (matchTy_val_children hm)
+      subst hts
+      rw [h.pos]; simp
+    | overflow => simp
+    | other =>
+      simp only [Rd.mismatch]
+      by_cases hthrow : t ≠ .nil ∧ r.mis = .throwError
+      · simp [hthrow]; rfl
+      · simp only [hthrow, if_false]
+        have hsk := skip_at h hv
+        rw [hvv] at hsk
+        simp [hsk, bind, Except.bind, pure, Except.pure]
+
+/-- the abstract answers to reading the first elements of an array with the target kinds `tys`: element by element,
+    the first exception ends it; asking for more elements than there are is OutOfRange (`CheckEnd`) -/
+def arrAnswer (mis : Mis) : List Ty → List (List Tok) → Except Err (List (Option Sc))
+  | [], _ => .ok []
+  | _ :: _, [] => .error .outOfRange
+  | ty :: tys, v :: vs =>
+    match valueAnswer mis ty v with
+    | .error e => .error e
+    | .ok a =>
+      match arrAnswer mis tys vs with
+      | .error e => .error e
+      | .ok as => .ok (a :: as)
+
+/-- `SerializeValue(value)` on an array scope once for each target kind of `tys`: the answers, `mIndex` afterwards, reader -/
+def arrReads : List Ty → Nat → Nat → Rd → Except Err (List (Option Sc) × Nat × Rd)
+  | [], _, index, r => .ok ([], index, r)
+  | ty :: tys, size, index, r =>
+    match checkEnd size index with
+    | .error e => .error e
+    | .ok () =>
+      match r.readValue ty with
+      | .error e => .error e
+      | .ok (a, r1) =>
+        match arrReads tys size (index + 1) r1 with
+        | .error e => .error e
+        | .ok (as, idx, r2) => .ok (a :: as, idx, r2)
+
+theorem arrReads_at (tys : List Ty) :
+    ∀ (items : List (List Tok)), (∀ v ∈ items, WFv v) → ∀ (r : Rd) (pre rest : List Tok) (size index : Nat),
+    At r pre items.flatten rest → size = index + items.length →
+    match arrAnswer r.mis tys items with
+    | .ok as => tys.length ≤ items.length ∧
+        arrReads tys size index r = .ok (as, index + tys.length, { r with pos := (pre ++ (items.take tys.length).flatten).length })
+    | .error e => arrReads tys size index r = .error e := by
+  induction tys with
+  | nil =>
+    intro items _ r pre rest size index h _
+    simp only [arrAnswer, arrReads, List.length_nil, Nat.zero_le, List.take_zero, List.flatten_nil, List.append_nil,
+      Nat.add_zero, true_and]
+    rw [← h.pos]
+  | cons ty tys ih =>
+    intro items hw r pre rest size index h hsz
+    cases items with
+    | nil =>
+      simp only [List.length_nil, Nat.add_zero] at hsz
+      simp [arrAnswer, arrReads, checkEnd, hsz]
+    | cons v vs =>
+      have hne : ¬ (index = size) := by simp only [List.length_cons] at hsz; omega
+      simp only [List.flatten_cons] at h
+      have hrv := readValue_at h.split (hw v (by simp)) ty
+      simp only [arrAnswer, arrReads, checkEnd, hne, if_false]
+      cases hva : valueAnswer r.mis ty v with
+      | error e => rw [hva] at hrv; simp only [hrv]
+      | ok a =>
+        rw [hva] at hrv
+        simp only [hrv]
+        have := ih vs (fun w hw' => hw w (by simp [hw'])) { r with pos := (pre ++ v).length } (pre ++ v) rest size (index + 1)
+          h.advance (by simp only [List.length_cons] at hsz; omega)
+        simp only at this
+        cases haa : arrAnswer r.mis tys vs with
+        | error e => rw [haa] at this; simp only [this]
+        | ok as =>
+          rw [haa] at this
+          obtain ⟨hle, hrd⟩ := this
+          simp only [hrd]
+          refine ⟨by simp only [List.length_cons]; omega, ?_⟩
+          simp [List.append_assoc, Nat.add_assoc, Nat.add_comm 1]
+
+/-- `OpenArrayScope(key)` on an object scope, `SerializeValue` for each kind of `tys` on the array scope, and the
+    destruction of the array scope wherever it then stands (`none`: the scope was not opened: absent key, nil, or a
+    value of another kind under the Skip policy) -/
+def objReadArr (key : Key) (tys : List Ty) (o : Obj) (r : Rd) : Except Err (Option (List (Option Sc)) × Obj × Rd) :=
+  match findValueByKey key o r with
+  | .error e => .error e
+  | .ok (false, o1, r1) => .ok (none, o1, r1)
+  | .ok (true, o1, r1) =>
+    match r1.readArraySize with
+    | .error e => .error e
+    | .ok (none, r2) => .ok (none, o1.onFinishChild, r2)
+    | .ok (some n, r2) =>
+      match arrReads tys n 0 r2 with
+      | .error e => .error e
+      | .ok (as, idx, r3) =>
+        match arrClose n idx r3 with
+        | .error e => .error e      -- deferred to Finalize() by the destructor; impossible on complete values (below)
+        | .ok r4 => .ok (some as, o1.onFinishChild, r4)
+
+/-- the complete value `v` is an array of the complete values `items` -/
+def IsArr (v : List Tok) (items : List (List Tok)) : Prop :=
+  v = .arr items.length :: items.flatten ∧ ∀ w ∈ items, WFv w
+
+/-- every entry whose value starts with an array header is an array of complete values (true of every
+    well-formed document; `WFv` alone only says that the value as a whole is skipped exactly) -/
+def Layout.ArrWF (L : Layout) : Prop :=
+  ∀ e ∈ L.entries, ∀ n ts, e.2 = .arr n :: ts → ∃ items, IsArr e.2 items
+
+/-- the abstract outcome of "open the array stored in the complete value `v`, read `tys`, close it" -/
+inductive ArrOutcome (mis : Mis) (tys : List Ty) (v : List Tok) : Except Err (Option (List (Option Sc))) → Prop where
+  | arr (items : List (List Tok)) (h : IsArr v items) :
+      ArrOutcome mis tys v (match arrAnswer mis tys items with | .ok as => .ok (some as) | .error e => .error e)
+  | notArr (t : Tok) (ts : List Tok) (h : v = t :: ts) (hn : ∀ n, t ≠ .arr n) :
+      ArrOutcome mis tys v (if t ≠ .nil ∧ mis = .throwError then .error .mismatched else .ok none)
+
+theorem at_of_drop {r : Rd} {p : Nat} {v rest : List Tok} (h : r.doc.drop p = v ++ rest) (hp : r.pos = p)
+    (hle : p ≤ r.doc.length) : At r (r.doc.take p) v rest := by
+  refine ⟨?_, by rw [hp, List.length_take]; omega⟩
+  rw [List.append_assoc, ← h, List.take_append_drop]
+
+theorem readArraySize_not_arr {r : Rd} {t : Tok} {rest' : List Tok} (h : r.rest = t :: rest') (hn : ∀ n, t ≠ .arr n) :
+    r.readArraySize = (match r.mismatch t with | .ok r' => .ok (none, r') | .error e => .error e) := by
+  unfold Rd.readArraySize
+  rw [h]
+  cases t with
+  | arr n => exact absurd rfl (hn n)
+  | _ => simp only [bind, Except.bind, pure, Except.pure] <;> cases r.mismatch _ <;> rfl
+
+/-- **An array scope under a key, left wherever the caller likes**: the answers are the abstract answers for the
+    first elements of the stored array, and — because the destructor skips the elements that were not read — the
+    object scope's cursor invariant holds again afterwards (so every later request is answered correctly:
+    `history_correct`) -/
+theorem objReadArr_spec (L : Layout) (hwf : L.WF) (harr : L.ArrWF) (key : Key) (tys : List Ty) (o : Obj) (r : Rd)
+    (hinv : Inv L o r) :
+    (∃ (m : Nat) (e : Key × List Tok) (out : Except Err (Option (List (Option Sc)))),
+      L.entries[m]? = some e ∧ e.1 = key ∧ ArrOutcome r.mis tys e.2 out ∧
+      (match out with
+       | .ok a => ∃ o' r', objReadArr key tys o r = .ok (a, o', r') ∧ Inv L o' r' ∧ r'.mis = r.mis
+       | .error err => objReadArr key tys o r = .error err)) ∨
+    ((∀ m, keyAt L m ≠ some key) ∧ ∃ o' r', objReadArr key tys o r = .ok (none, o', r') ∧ Inv L o' r' ∧ r'.mis = r.mis) := by
+  obtain ⟨b, o1, r1, hf, hmis, ht, hfalse⟩ := findValueByKey_spec L hwf key o r hinv
+  cases b with
+  | false =>
+    obtain ⟨hno, j', hj', hat⟩ := hfalse rfl
+    right
+    refine ⟨hno, o1, r1, ?_, ⟨j', none, hat, hj', by simp⟩, hmis⟩
+    simp [objReadArr, hf]
+  | true =>
+    obtain ⟨m, hk, hat⟩ := ht rfl
+    obtain ⟨e, he, hek, hlt⟩ := keyAt_some hk
+    left
+    rw [← hmis]
+    have hw := hwf e (List.mem_of_getElem? he)
+    have hpos : r1.pos = L.posOf m + 1 := by simpa using hat.pos
+    have hrest := rest_at_value L r1 hat.doc m e he hpos
+    have hinv' : ∀ (r' : Rd), r'.doc = r1.doc → r'.pos = L.posOf (m + 1) → Inv L o1.onFinishChild r' := by
+      intro r' hd hp
+      exact ⟨m + 1, none, ⟨by rw [hd, hat.doc], hat.start, hat.size, by simp [Obj.onFinishChild, hat.index], rfl, by simpa using hp⟩,
+        by omega, by simp⟩
+    cases hv : e.2 with
+    | nil => exact absurd hv hw.1
+    | cons t ts =>
+      rw [hv] at hrest
+      simp only [List.cons_append] at hrest
+      by_cases harrt : ∃ n, t = .arr n
+      · -- the value is an array
+        obtain ⟨n, rfl⟩ := harrt
+        obtain ⟨items, hia⟩ := harr e (List.mem_of_getElem? he) n ts hv
+        have hia' := hia
+        obtain ⟨hshape, hitems⟩ := hia
+        rw [hv] at hshape
+        have hn : n = items.length := by injection hshape with h1 _; injection h1
+        have hts : ts = items.flatten := by injection hshape
+        subst hn; subst hts
+        refine ⟨m, e, _, he, hek, ArrOutcome.arr items hia', ?_⟩
+        have hras : r1.readArraySize = .ok (some items.length, { r1 with pos := r1.pos + 1 }) := by
+          unfold Rd.readArraySize; rw [hrest]
+        -- the reader behind the array header is in front of the elements
+        have hdrop : r1.doc.drop (r1.pos + 1) = items.flatten ++ ((L.entries.drop (m + 1)).flatMap Layout.enc ++ L.post) := by
+          have : r1.doc.drop (r1.pos + 1) = (r1.doc.drop r1.pos).drop 1 := by rw [List.drop_drop]
+          rw [this]; unfold Rd.rest at hrest; rw [hrest]; simp
+        have hlen : r1.pos + 1 ≤ r1.doc.length := by
+          have : (r1.doc.drop r1.pos).length = r1.doc.length - r1.pos := List.length_drop ..
+          unfold Rd.rest at hrest; rw [hrest] at this; simp at this; omega
+        have hat2 : At { r1 with pos := r1.pos + 1 } (r1.doc.take (r1.pos + 1)) items.flatten
+            ((L.entries.drop (m + 1)).flatMap Layout.enc ++ L.post) :=
+          at_of_drop (r := { r1 with pos := r1.pos + 1 }) hdrop rfl hlen
+        have hreads := arrReads_at tys items hitems _ _ _ items.length 0 hat2 (by omega)
+        simp only at hreads
+        simp only [objReadArr, hf, hras]
+        cases haa : arrAnswer r1.mis tys items with
+        | error err => rw [haa] at hreads; simp only [hreads]
+        | ok as =>
+          rw [haa] at hreads
+          obtain ⟨hle, hrd⟩ := hreads
+          simp only [hrd, Nat.zero_add]
+          -- the destructor passes over the elements that were not read
+          have hsplit : items.flatten = (items.take tys.length).flatten ++ (items.drop tys.length).flatten := by
+            rw [← List.flatten_append, List.take_append_drop]
+          have hat3 := hat2
+          rw [hsplit] at hat3
+          have hcl := arrCloseLoop_at (items.drop tys.length) (fun w hw' => hitems w (List.mem_of_mem_drop hw')) _ _ _ hat3.advance
+          have hcnt : items.length - tys.length = (items.drop tys.length).length := by simp
+          simp only [arrClose, hcnt, hcl]
+          refine ⟨_, _, rfl, hinv' _ rfl ?_, rfl⟩
+          simp only
+          rw [List.append_assoc, ← hsplit]
+          have hs := L.posOf_succ m e he
+          rw [hv] at hs
+          simp only [List.length_append, List.length_take, List.length_cons] at hs ⊢
+          omega
+      · -- a value of another kind: policy
+        have hn : ∀ n, t ≠ .arr n := fun n h => harrt ⟨n, h⟩
+        refine ⟨m, e, _, he, hek, ArrOutcome.notArr t ts hv hn, ?_⟩
+        have hras := readArraySize_not_arr hrest hn
+        by_cases hthrow : t ≠ .nil ∧ r1.mis = .throwError
+        · have hmm : r1.mismatch t = .error .mismatched := by simp [Rd.mismatch, hthrow]
+          rw [hmm] at hras
+          rw [if_pos hthrow]
+          simp only [objReadArr, hf, hras]
+        · have hsk := skipValue_at_value L r1 hat.doc m e he hw hpos
+          have hmm : r1.mismatch t = .ok { r1 with pos := L.posOf (m + 1) } := by
+            simp only [Rd.mismatch, if_neg hthrow, hsk]
+          rw [hmm] at hras
+          rw [if_neg hthrow]
+          simp only [objReadArr, hf, hras]
+          exact ⟨_, _, rfl, hinv' _ rfl rfl, rfl⟩
+
 /-- a freshly opened object scope satisfies the invariant -/
 theorem inv_init (L : Layout) (r : Rd) (hdoc : r.doc = L.doc) (hpos : r.pos = L.posOf 0) :
     Inv L ⟨r.pos, L.size, 0, none⟩ r :=
